@@ -97,7 +97,11 @@ type inliner struct {
 	// closures: a function literal bound once to a local, or handed to a helper's parameter, and
 	// called exactly once is inlined like a helper (its free variables are the variables of the
 	// scopes it is written in, which the view keeps)
-	root    *ast.BlockStmt
+	copies   map[*types.Func]int
+	copyOf   map[*ast.CallExpr]*core.Fn
+	origBody map[*ast.BlockStmt]*ast.BlockStmt
+	noCopies bool
+	root     *ast.BlockStmt
 	bound   map[types.Object]ast.Expr // parameter of an inlined helper -> argument
 	scope   map[types.Object]ast.Node // parameter of an inlined helper -> the helper's body
 	lits    map[*ast.FuncLit]*core.Fn // literals wrapped as helpers
@@ -144,6 +148,7 @@ func ViewOfLit(p *core.Program, info *types.Info, lit *ast.FuncLit, tag string, 
 func viewOfBody(p *core.Program, info *types.Info, body *ast.BlockStmt, opaque func(*types.Func) bool) *View {
 	v := &View{Exits: map[*ast.BranchStmt]*ast.ReturnStmt{}, ExitVals: map[*ast.BranchStmt][]ast.Expr{}, helperOf: map[*ast.ReturnStmt]*ast.BlockStmt{}, Named: map[types.Object]bool{}}
 	in := &inliner{p: p, info: info, opaque: opaque, stack: map[*ast.BlockStmt]bool{body: true}, used: map[*ast.BlockStmt]bool{}, v: v, pseudo: map[string]*pctx{},
+		copies: map[*types.Func]int{}, copyOf: map[*ast.CallExpr]*core.Fn{}, origBody: map[*ast.BlockStmt]*ast.BlockStmt{},
 		root: body, bound: map[types.Object]ast.Expr{}, scope: map[types.Object]ast.Node{}, lits: map[*ast.FuncLit]*core.Fn{}, litDone: map[*ast.FuncLit]bool{}}
 	for _, pk := range p.Pkgs {
 		if pk.TypesInfo == info {
@@ -187,6 +192,7 @@ func viewOfBody(p *core.Program, info *types.Info, body *ast.BlockStmt, opaque f
 			}
 		}
 	}
+	v.Body = inlineExprHelpers(p, info, v.Body, opaque, body, un.onCopy)
 	v.Body = derefPointers(info, v.Body, un.onCopy)
 	v.Body = splitRecords(info, v.Body, un.onCopy)
 	un.root = v.Body
@@ -217,12 +223,30 @@ func (in *inliner) helper(call *ast.CallExpr, depth int) *core.Fn {
 	if f == nil {
 		return in.closure(call)
 	}
-	if in.opaque != nil && in.opaque(f) || in.calls[f] > 1 {
+	if in.opaque != nil && in.opaque(f) {
 		return nil
 	}
 	h := in.p.FnOf(f)
-	if h == nil || h.Decl.Body == nil || h.Pkg.TypesInfo != in.info || in.stack[h.Decl.Body] || in.used[h.Decl.Body] {
+	if h == nil || h.Decl.Body == nil || h.Pkg.TypesInfo != in.info || in.stack[h.Decl.Body] {
 		return nil
+	}
+	// a helper that is called from several places (or was expanded already) is expanded as a copy,
+	// with its own variables: small helpers only, and only a few times
+	multi := in.calls[f] > 1 || in.used[h.Decl.Body]
+	if multi {
+		size := 0
+		ast.Inspect(h.Decl.Body, func(n ast.Node) bool {
+			if _, isStmt := n.(ast.Stmt); isStmt {
+				size++
+			}
+			if _, isLit := n.(*ast.FuncLit); isLit {
+				size += 1000 // literals inside a copied helper are not followed
+			}
+			return true
+		})
+		if size > 25 || in.copies[f] >= 8 || in.noCopies {
+			return nil
+		}
 	}
 	sig := f.Type().(*types.Signature)
 	if sig.Variadic() || sig.Params().Len() != len(call.Args) {
@@ -248,7 +272,25 @@ func (in *inliner) helper(call *ast.CallExpr, depth int) *core.Fn {
 	if hasDefer {
 		return nil
 	}
+	if multi {
+		if c := in.copyOf[call]; c != nil {
+			return c
+		}
+		c := in.cloneFn(h)
+		in.copyOf[call] = c
+		in.copies[f]++
+		return c
+	}
 	return h
+}
+
+// cloneFn copies the declaration of a helper, with fresh objects for everything it declares.
+func (in *inliner) cloneFn(h *core.Fn) *core.Fn {
+	cl := &cloner{info: in.info, lo: h.Decl.Pos(), hi: h.Decl.End()}
+	decl := cl.clone(h.Decl).(*ast.FuncDecl)
+	cl.transfer(nil)
+	in.origBody[decl.Body] = h.Decl.Body
+	return &core.Fn{Obj: h.Obj, Decl: decl, Pkg: h.Pkg}
 }
 
 var releaseNames = map[string]bool{"Close": true, "Unlock": true, "RUnlock": true, "Done": true, "Stop": true}
@@ -390,7 +432,27 @@ func (in *inliner) prelude(h *core.Fn, call *ast.CallExpr) []ast.Stmt {
 	var out []ast.Stmt
 	if h.Decl.Recv != nil && len(h.Decl.Recv.List) == 1 && len(h.Decl.Recv.List[0].Names) == 1 {
 		if sel, ok := ast.Unparen(call.Fun).(*ast.SelectorExpr); ok && h.Decl.Recv.List[0].Names[0].Name != "_" {
-			out = append(out, &ast.AssignStmt{Lhs: []ast.Expr{h.Decl.Recv.List[0].Names[0]}, TokPos: call.Pos(), Tok: token.DEFINE, Rhs: []ast.Expr{sel.X}})
+			recv := sel.X
+			// `v.m()` with a pointer receiver on an addressable value is `(&v).m()`; with a value
+			// receiver on a pointer it is `(*p).m()`
+			if ro := in.info.Defs[h.Decl.Recv.List[0].Names[0]]; ro != nil {
+				_, wantPtr := ro.Type().Underlying().(*types.Pointer)
+				at := in.info.TypeOf(sel.X)
+				if at != nil {
+					_, havePtr := at.Underlying().(*types.Pointer)
+					switch {
+					case wantPtr && !havePtr:
+						u := &ast.UnaryExpr{OpPos: sel.X.Pos(), Op: token.AND, X: sel.X}
+						in.info.Types[u] = types.TypeAndValue{Type: ro.Type()}
+						recv = u
+					case !wantPtr && havePtr:
+						st := &ast.StarExpr{Star: sel.X.Pos(), X: sel.X}
+						in.info.Types[st] = types.TypeAndValue{Type: ro.Type()}
+						recv = st
+					}
+				}
+			}
+			out = append(out, &ast.AssignStmt{Lhs: []ast.Expr{h.Decl.Recv.List[0].Names[0]}, TokPos: call.Pos(), Tok: token.DEFINE, Rhs: []ast.Expr{recv}})
 		}
 	}
 	i := 0
@@ -440,13 +502,17 @@ func (in *inliner) expand(h *core.Fn, call *ast.CallExpr, lhs []ast.Expr, tok to
 	in.nlabel++
 	label := &ast.Ident{NamePos: call.End(), Name: fmt.Sprintf("inl$%d", in.nlabel)}
 	ex := &exit{lhs: lhs, tok: tok, label: label, named: namedResults(h), body: h.Decl.Body}
-	in.stack[h.Decl.Body], in.used[h.Decl.Body] = true, true
+	skey := h.Decl.Body
+	if o := in.origBody[skey]; o != nil {
+		skey = o
+	}
+	in.stack[skey], in.used[skey] = true, true
 	in.v.Inlined = append(in.v.Inlined, h)
 	in.noteNamed(h)
 	in.noteLit(h)
 	pre := in.prelude(h, call)
 	body := in.block(h.Decl.Body, depth-1, ex)
-	delete(in.stack, h.Decl.Body)
+	delete(in.stack, skey)
 	list := append(pre, body.List...)
 	list = append(list, &ast.LabeledStmt{Label: label, Colon: call.End(), Stmt: &ast.EmptyStmt{Semicolon: call.End(), Implicit: true}})
 	return &ast.BlockStmt{Lbrace: call.Pos(), List: list, Rbrace: call.End()}
@@ -454,7 +520,11 @@ func (in *inliner) expand(h *core.Fn, call *ast.CallExpr, lhs []ast.Expr, tok to
 
 // tail inlines `return h(a)`: the helper's returns stay returns.
 func (in *inliner) tail(h *core.Fn, call *ast.CallExpr, depth int, outer *exit) ast.Stmt {
-	in.stack[h.Decl.Body], in.used[h.Decl.Body] = true, true
+	skey := h.Decl.Body
+	if o := in.origBody[skey]; o != nil {
+		skey = o
+	}
+	in.stack[skey], in.used[skey] = true, true
 	in.v.Inlined = append(in.v.Inlined, h)
 	in.noteNamed(h)
 	var ex *exit
@@ -467,7 +537,7 @@ func (in *inliner) tail(h *core.Fn, call *ast.CallExpr, depth int, outer *exit) 
 	in.noteLit(h)
 	pre := in.prelude(h, call)
 	body := in.block(h.Decl.Body, depth-1, ex)
-	delete(in.stack, h.Decl.Body)
+	delete(in.stack, skey)
 	return &ast.BlockStmt{Lbrace: call.Pos(), List: append(pre, body.List...), Rbrace: call.End()}
 }
 
@@ -707,6 +777,19 @@ func (in *inliner) stmt(s ast.Stmt, depth int, ex *exit) []ast.Stmt {
 		if h, call, lhs, tok := in.callOf(v.Init, depth); h != nil {
 			n.Init = nil
 			return []ast.Stmt{in.expand(h, call, lhs, tok, depth), n}
+		}
+		// `switch h(a) { .. }`: the helper's answer is computed into a variable first
+		if call, ok := ast.Unparen(v.Tag).(*ast.CallExpr); ok && v.Init == nil && in.pkg != nil {
+			if h := in.helper(call, depth); h != nil && h.Obj.Type().(*types.Signature).Results().Len() == 1 {
+				in.nlabel++
+				tv := types.NewVar(call.Pos(), in.pkg.Types, fmt.Sprintf("tag$%d", in.nlabel), h.Obj.Type().(*types.Signature).Results().At(0).Type())
+				def := &ast.Ident{NamePos: call.Pos(), Name: tv.Name()}
+				use := &ast.Ident{NamePos: call.Pos(), Name: tv.Name()}
+				in.info.Defs[def] = tv
+				in.info.Uses[use] = tv
+				n.Tag = use
+				return []ast.Stmt{in.expand(h, call, []ast.Expr{def}, token.DEFINE, depth), n}
+			}
 		}
 		return []ast.Stmt{n}
 	case *ast.TypeSwitchStmt:
